@@ -21,7 +21,16 @@ from . import h5util as H
 ID = "C10"
 MOD = "harness.props.c10"
 LEAN = dict(modules=["MetadorModel.Props.C10"],
-            theorems=["MetadorModel.C10." + n for n in ['stub_identity', 'stub_patch_accepted', 'stub_patch_same_block', 'stub_skeleton', 'stub_single']],
+            theorems=["MetadorModel.C10." + n for n in ['stub_identity', 'stub_patch_accepted', 'stub_patch_same_block', 'stub_skeleton', 'stub_single',
+                                                               'stub_sameSkel', 'stub_inv', 'stub_mentions',
+                                                               'existence_determined', 'existence_determined_ok',
+                                                               'existence_determined_error',
+                                                               'stub_patch_same_result_partial',
+                                                               'stub_patch_same_result_of_step_inv',
+                                                               'stub_patch_same_view', 'stub_patch_same_result',
+                                                               'stub_patch_same_result_holds']]
+            + ["MetadorModel.Follow." + n for n in ['look_shape', 'obsOf_congr', 'step_top', 'run_same_patches',
+                                                    'follow_same_skel', 'invAlong_of_step_inv', 'invAlongB_sound']],
             drivers=["drv_mrg"])
 
 
